@@ -365,12 +365,35 @@ def format_on_path(m, p):
             if mm:
                 fmt = mm.group(1)
     if fmt is None:
-        for t in p:
-            if t[0] == "when" and t[1].startswith("(discr(call(serializer::get_header_format)) Eq "):
-                k = int(re.search(r"Eq (\d+)\)", t[1]).group(1))
-                if t[2].startswith("other"):
-                    fmt = m.variants[k]
+        fs = computed_format_set(m, p)
+        if len(fs) == 1:
+            fmt = m.variants[next(iter(fs))]
     return fmt
+
+
+def computed_format_set(m, p):
+    """the variants the result of get_header_format can still be on this path, from the decisions taken on it (== tests and matches)"""
+    fs = set(range(len(m.variants)))
+    G = "discr(call(serializer::get_header_format))"
+    for t in p:
+        if t[0] != "when":
+            continue
+        mm = re.match(r"^\(" + re.escape(G) + r" (Eq|Ne) (\d+)\)$", t[1])
+        if mm:
+            k = int(mm.group(2))
+            holds = t[2].startswith("other") if t[2] != "1" else True
+            if t[2] == "0":
+                holds = False
+            if (mm.group(1) == "Eq") == holds:
+                fs &= {k}
+            else:
+                fs -= {k}
+        elif t[1] == G:
+            if t[2].startswith("other:"):
+                fs -= {int(x) for x in t[2][6:].split(",") if x.isdigit()}
+            else:
+                fs &= {int(x) for x in t[2].split(",") if x.isdigit()}
+    return fs
 
 
 def timestamp_semantics(m, rep, rule):
@@ -395,10 +418,9 @@ def timestamp_semantics(m, rep, rule):
             if not re.match(r"^load\(\*?load\(message\)\.timestamp\.value\)$", tsf):
                 conds = " ".join(grammar.fmt_tok(t) for t in p if t[0] == "when")[:260]
                 bad.append("a Full (type 0) header is written with timestamp field %s instead of the message's absolute timestamp on the path %s" % (tsf[:140], conds))
-        elif fmt is None:
+        elif fmt is None or not any(t[0] == "call" and t[1].endswith("add_initial_timestamp") and t[2] and t[2][0] == "&ChunkHeaderFormat::" + fmt for t in p):
             # format computed by get_header_format: which variants can it still be on this path?
-            excluded_full = any(t[0] == "when" and t[1].startswith("(discr(call(serializer::get_header_format)) Eq 0)") and t[2] == "0" for t in p) or \
-                any(t[0] == "when" and t[1].startswith("(discr(call(serializer::get_header_format)) Ne 0)") and t[2].startswith("other") for t in p)
+            excluded_full = 0 not in computed_format_set(m, p)
             shape = m.ctx.ret_shape(m.b["get_header_format"].key)
             may_full = (shape is None or shape.get("variants") is None or 0 in shape["variants"]) and not excluded_full
             if may_full:
